@@ -129,6 +129,23 @@ theorem not_served {s : Srv} {t : Eio} {v : J} {nsp : Option Str} {data : Option
   rw [step_of_isConnect hc]
   exact handleConnect_refused_early cfg s t nsp data (Or.inl hs)
 
+/-- a configuration that serves only `/` and registers no handler at all -/
+def reg1 : Registry := ⟨fun _ _ => false, fun _ => false, fun _ => false, fun _ _ => false⟩
+def cfg1 : Cfg := ⟨false, some [['/']], false, reg1, cfg0.script⟩
+def dec1 : Str → Except Err (Packet × Nat)
+  | ['z'] => .ok (⟨CONNECT, some ['/', 'z'], none, none⟩, 0)
+  | t => dec0 t
+def demo1 : Srv := (run dec1 cfg1 {} [.eioConnect tA]).1
+example : IsConnect dec1 demo1 tA (.str ['z']) (some ['/', 'z']) none := ⟨rfl, 0, none, rfl⟩
+example : isServed cfg1 ['/', 'z'] = false := by decide
+example : (step dec1 cfg1 demo1 (.frame tA (.str ['z']))).2 =
+    [.send tA (pktConnectError ['/', 'z'] (.str "Unable to connect".toList))] := by rfl
+-- … and `/` is served there without any connect handler (`connect_no_handler`)
+example : isServed cfg1 nsRoot = true ∧ sidOf demo1.rooms nsRoot tA = none ∧ tA ∈ demo1.socks := by
+  decide
+example : (step dec1 cfg1 demo1 (.frame tA (.str ['c']))).2 =
+    [.send tA (pktConnect nsRoot (sidName 0))] := by rfl
+
 /-- CONNECT on a namespace the transport is already connected to: the same refusal. -/
 theorem duplicate {s : Srv} {t : Eio} {v : J} {nsp : Option Str} {data : Option J} {sid : Sid}
     (hc : IsConnect dec s t v nsp data) (hs : sidOf s.rooms (nsp.getD ['/']) t = some sid) :
@@ -200,6 +217,63 @@ example : Dom dec0 cfg0 demo0 histD := by
   | binary hf => cases hf
 example : discCount (sidName 0) (run dec0 cfg0 demo0 histD).2 = 1 := by decide
 
+/-- `disconnect(sid, ns)` for a connected session with a disconnect handler registered: the
+    handler is invoked exactly once, with `sid` and the reason of this path. -/
+theorem disconnect_api_runs {s : Srv} {sid : Sid} {ns : Ns} {slot : Slot} {a : List J}
+    (hc : isConnected s sid ns = true)
+    (hr : resolve cfg.reg ns (.str "disconnect".toList)
+            [.str sid, .str "server disconnect".toList] = .ok (.fn slot a) ∨
+          resolve cfg.reg ns (.str "disconnect".toList)
+            [.str sid, .str "server disconnect".toList] = .ok (.clsCall slot a)) :
+    (step dec cfg s (.apiDisconnect sid ns)).2.filter Out.isInvoke = [.invoke slot a] ∧
+    (∃ pre, a = pre ++ [.str sid, .str "server disconnect".toList]) ∧
+    ∃ k, (step dec cfg s (.apiDisconnect sid ns)).1 = ending s sid ns k := by
+  rw [step]; unfold apiDisconnect
+  simp only [hc, Bool.not_true, Bool.false_eq_true, if_false]
+  obtain ⟨h1, h2⟩ := endSession_invokes cfg s sid ns "server disconnect".toList true hr
+  exact ⟨h1, h2, endSession_state ..⟩
+
+/-- frame `v` from `t` is a DISCONNECT packet for namespace `nsp` -/
+structure IsDisconnect (dec : Str → Except Err (Packet × Nat)) (s : Srv) (t : Eio) (v : J)
+    (nsp : Option Str) : Prop where
+  noPartial : s.binbuf.find? (fun e => e.1 = t) = none
+  decoded : ∃ n id data, frameDecode dec v = .ok (⟨DISCONNECT, nsp, id, data⟩, n)
+
+/-- A client DISCONNECT on a namespace the transport is connected to, with a disconnect handler
+    registered: the handler is invoked exactly once, with the session id of that transport on
+    that namespace and the reason "client disconnect"; the session is ended. -/
+theorem disconnect_client_runs {s : Srv} (h : Server.WF s) {t : Eio} {v : J} {nsp : Option Str}
+    {sid : Sid} {slot : Slot} {a : List J} (hd : IsDisconnect dec s t v nsp)
+    (hs : sidOf s.rooms (nsp.getD ['/']) t = some sid)
+    (hr : resolve cfg.reg (nsp.getD ['/']) (.str "disconnect".toList)
+            [.str sid, .str "client disconnect".toList] = .ok (.fn slot a) ∨
+          resolve cfg.reg (nsp.getD ['/']) (.str "disconnect".toList)
+            [.str sid, .str "client disconnect".toList] = .ok (.clsCall slot a)) :
+    (step dec cfg s (.frame t v)).2.filter Out.isInvoke = [.invoke slot a] ∧
+    (∃ pre, a = pre ++ [.str sid, .str "client disconnect".toList]) ∧
+    ∃ k, (step dec cfg s (.frame t v)).1 = ending s sid (nsp.getD ['/']) k := by
+  obtain ⟨n, id, data, hdec⟩ := hd.decoded
+  have hstep : step dec cfg s (.frame t v) =
+      ((handleDisconnect cfg s t (nsp.getD ['/']) "client disconnect".toList).1,
+       (handleDisconnect cfg s t (nsp.getD ['/']) "client disconnect".toList).2.1) := by
+    rw [step, handleFrame_text dec cfg hd.noPartial, hdec]
+    unfold dispatchPacket
+    simp [DISCONNECT, CONNECT]
+  have hdis : handleDisconnect cfg s t (nsp.getD ['/']) "client disconnect".toList =
+      endSession cfg s sid (nsp.getD ['/']) "client disconnect".toList false := by
+    unfold handleDisconnect
+    rw [hs]
+    simp only [isConnected_of_sidOf h hs, Bool.not_true, Bool.false_eq_true, if_false]
+  rw [hstep, hdis]
+  obtain ⟨h1, h2⟩ := endSession_invokes cfg s sid (nsp.getD ['/']) "client disconnect".toList false hr
+  exact ⟨h1, h2, endSession_state ..⟩
+
+example : IsDisconnect dec0 demo0 tA (.str ['d']) none := ⟨rfl, 0, none, none, rfl⟩
+example : (step dec0 cfg0 demo0 (.frame tA (.str ['d']))).2 =
+    [.invoke (.fn nsRoot "disconnect".toList) [.str (sidName 0), .str "client disconnect".toList]] := by
+  rfl
+example : isConnected demo0 (sidName 0) nsRoot = true := by decide
+
 /-- The gate itself: once a session has ended, `disconnect()` and a client DISCONNECT for it do
     nothing. -/
 theorem disconnect_after_end {s : Srv} (h : Server.WF s) {sid : Sid} (hl : ¬ sidLive s.rooms sid)
@@ -225,6 +299,8 @@ theorem after_end {s : Srv} (h : Server.WF s) {sid : Sid} {ns : Ns} {t : Eio}
   subst hs
   have hd : Dead j (ending s (sidName j) ns k) := ⟨hj, not_sidLive_disconnect h.toWF0 he⟩
   exact not_connected_of_not_live (hw.run dec cfg is) (hd.run hw dec cfg is).2 ns'
+
+example : eioOf demo0.rooms nsRoot (sidName 0) = some tA := by decide
 
 /-- each of the three causes ends the session through the same state change -/
 theorem end_paths (s : Srv) (sid : Sid) (ns : Ns) (reason : Str) (b : Bool) :
